@@ -4,6 +4,8 @@
 package vapi
 
 import (
+	"time"
+
 	"encoding/hex"
 	"encoding/json"
 	"fmt"
@@ -183,6 +185,12 @@ func Min(a, b int) int {
 	}
 	return b
 }
+
+// Advance moves the virtual clock forward (engine only; natively the wall clock cannot be steered).
+func Advance(d time.Duration) {}
+
+// Elapsed is the virtual time since the start of the path, in nanoseconds.
+func Elapsed() int64 { return 0 }
 
 // Cover marks a reachability witness.
 func Cover(label string) {}
